@@ -13,6 +13,7 @@ import (
 	"fmt"
 	"os"
 	"path/filepath"
+	"runtime/pprof"
 	"sort"
 	"strings"
 	"sync"
@@ -79,14 +80,21 @@ func run(r *vrt.Run) {
 	ft := allFeatures
 	// 576-byte deposit logs with wrong offset/size words: go-ethereum accepts them while
 	// EIP-6110 (is_valid_deposit_event_data) makes the block invalid. Known divergence,
-	// reported separately; off by default so that the remaining monitor stays silent.
-	ft.BadDepositLayout = os.Getenv("C26_BAD_DEPOSIT_LAYOUT") == "1"
+	// listed in known_findings.json (narrow fingerprint deposit-log-layout-accepted); kept to a
+	// small share of the cases; C26_BAD_DEPOSIT_LAYOUT=0 switches the trigger off.
+	ft.BadDepositLayout = os.Getenv("C26_BAD_DEPOSIT_LAYOUT") != "0"
 	// contract creation onto a storage-only account: EIP-7610 says collision, go-ethereum
 	// checks a hard-coded list of mainnet addresses instead. Known divergence, same policy.
-	ft.StorageOnlyCollision = os.Getenv("C26_STORAGE_ONLY_COLLISION") == "1"
+	ft.StorageOnlyCollision = os.Getenv("C26_STORAGE_ONLY_COLLISION") != "0"
 	perFork := r.N(1500, 120000)
 	if v := os.Getenv("C26_N"); v != "" {
 		fmt.Sscan(v, &perFork)
+	}
+	if pf := os.Getenv("C26_PROF"); pf != "" { // development aid
+		if fh, err := os.Create(pf); err == nil {
+			pprof.StartCPUProfile(fh)
+			defer pprof.StopCPUProfile()
+		}
 	}
 	agg := &covAgg{halts: map[string]uint64{}}
 	vrt.Par(perFork*len(forks), 16, func(i int) {
@@ -261,6 +269,26 @@ func judge(r *vrt.Run, bin string, c *Case, idx int, agg *covAgg) {
 		msg += m.Msg + "; "
 	}
 	fp := fmt.Sprintf("%s:%s", c.Fork, classes[0])
+	// Known divergences: the narrow fingerprint is used only if the case contains the trigger
+	// AND flipping exactly that one rule in the model makes every compared output equal.
+	explained := func(q refevm.Quirks) bool {
+		env2 := *c.Env
+		env2.Quirks = q
+		var ref2 *refevm.BlockResult
+		var post2 refevm.State
+		if perr, _ := vrt.Recover(func() { ref2, post2 = refevm.Transition(c.Fork, c.Pre, &env2, txs, nil, nil) }); perr != nil {
+			return false
+		}
+		return len(compare(c, ref2, post2, run)) == 0
+	}
+	switch {
+	case ref.ToolError == "invalid deposit log layout" && explained(refevm.Quirks{NoDepositLayoutCheck: true}):
+		fp = "deposit-log-layout-accepted"
+		r.Count("known:deposit-log-layout-accepted", 1)
+	case cov.Halts[refevm.HaltCollisionStorageOnly] > 0 && explained(refevm.Quirks{NoStorageCollision: true}):
+		fp = "eip7610-storage-only-collision"
+		r.Count("known:eip7610-storage-only-collision", 1)
+	}
 	witness := map[string]any{"fork": c.Fork.String(), "idx": idx, "tags": tags, "mismatches": mm, "first_divergence": loc,
 		"input": json.RawMessage(c.InputJSON()), "t8n_stderr": tail(run.Stderr, 2000)}
 	r.Violation(fp, fmt.Sprintf("fork=%s idx=%d: %s first divergence: %s", c.Fork, idx, msg, loc), witness)
